@@ -171,10 +171,11 @@ class ASlice(Arg):
         return f"&{lt}[{_g(self, self.t)}]"
 
     def setup(self):
-        return f"let {self.n}w: Vec<{self.t}> = Val::gen(&mut g); let {self.n}r = {self.n}w.clone();"
+        # a sub-slice of the buffer, sometimes an empty one in the middle (whose address still matters)
+        return f"let {self.n}w: Vec<{self.t}> = Val::gen(&mut g); let {self.n}r = {self.n}w.clone(); let ({self.n}lo, {self.n}hi) = sub_bounds(&mut g, {self.n}w.len());"
 
     def pass_(self, side):
-        return f"&{self.n}{side}[..]"
+        return f"&{self.n}{side}[{self.n}lo..{self.n}hi]"
 
     def impl_digest(self):
         return f"dig_slice({self.n}, &mut hh);"
@@ -183,7 +184,7 @@ class ASlice(Arg):
         return f"this.core.saw({self.n}.as_ptr() as usize, {self.n}.len());"
 
     def expect_ptrs(self):
-        return [f"({self.n}w.as_ptr() as usize, {self.n}w.len())"]
+        return [f"({self.n}w[{self.n}lo..{self.n}hi].as_ptr() as usize, {self.n}hi - {self.n}lo)"]
 
     def nondefault(self):
         return f"!{self.n}w.is_empty()"
@@ -201,10 +202,10 @@ class AMutSlice(Arg):
         return f"&{lt}mut [{self.t}]"
 
     def setup(self):
-        return f"let mut {self.n}w: Vec<{self.t}> = Val::gen(&mut g); let mut {self.n}r = {self.n}w.clone();"
+        return f"let mut {self.n}w: Vec<{self.t}> = Val::gen(&mut g); let mut {self.n}r = {self.n}w.clone(); let ({self.n}lo, {self.n}hi) = sub_bounds(&mut g, {self.n}w.len());"
 
     def pass_(self, side):
-        return f"&mut {self.n}{side}[..]"
+        return f"&mut {self.n}{side}[{self.n}lo..{self.n}hi]"
 
     def impl_digest(self):
         return f"dig_slice({self.n}, &mut hh);"
@@ -216,11 +217,11 @@ class AMutSlice(Arg):
         return f"for (k, x) in {self.n}.iter_mut().enumerate() {{ if k % 2 == 0 {{ *x = gen::<{self.t}>(h ^ (k as u64 + {self.i * 100})); }} }}"
 
     def expect_ptrs(self):
-        return [f"({self.n}w.as_ptr() as usize, {self.n}w.len())"]
+        return [f"({self.n}w[{self.n}lo..{self.n}hi].as_ptr() as usize, {self.n}hi - {self.n}lo)"]
 
     def after(self):
-        return (f"{{ let hb = sr.last_h(); for k in 0..{self.n}w.len() {{ if k % 2 == 0 {{ let want = gen::<{self.t}>(hb ^ (k as u64 + {self.i * 100}));"
-                f" if !same(&{self.n}w[k], &want) || !same(&{self.n}r[k], &want) {{ return Err(Fail::new(\"C02:mut-write\", format!(\"method {{}}: write through &mut [T] argument {self.i} at index {{}} not visible to the caller (len {{}})\", mname, k, {self.n}w.len()))); }} }} }}"
+        return (f"{{ let hb = sr.last_h(); for k in 0..({self.n}hi - {self.n}lo) {{ if k % 2 == 0 {{ let want = gen::<{self.t}>(hb ^ (k as u64 + {self.i * 100}));"
+                f" if !same(&{self.n}w[{self.n}lo + k], &want) || !same(&{self.n}r[{self.n}lo + k], &want) {{ return Err(Fail::new(\"C02:mut-write\", format!(\"method {{}}: write through &mut [T] argument {self.i} at index {{}} not visible to the caller (len {{}})\", mname, k, {self.n}hi - {self.n}lo))); }} }} }}"
                 f" if !same(&{self.n}w, &{self.n}r) {{ return Err(Fail::new(\"C02:mut-write\", format!(\"method {{}}: &mut [T] argument {self.i} differs between wrapped and direct call after the call\", mname))); }} }}")
 
     def nondefault(self):
@@ -668,13 +669,17 @@ class RIntRes(Ret):
     wrapped = True
     int_result = True
 
-    def __init__(self, t, e):
+    def __init__(self, t, e, alias=False):
         self.t, self.e = t, e  # e in io, unit, UErr
+        # spelled through a result alias named in a method-level #[int_result(Alias)]
+        self.alias = {"io": "ResIo", "UErr": "ResU"}.get(e) if alias else None
 
     def ety(self):
         return {"io": "std::io::Error", "unit": "()", "UErr": "UErr"}[self.e]
 
     def ty(self, lt):
+        if self.alias:
+            return f" -> {self.alias}<{self.t}>"
         return f" -> Result<{self.t}, {self.ety()}>"
 
     def impl_expr(self):
@@ -802,7 +807,7 @@ def gen_ret(rng, recv_mut, consuming, allow_child=True):
         if k < 0.80:
             return RRes(rng.choice(["u8", "u64", "Pod1"]), rng.choice(["u8", "i32", "bool"]))
         if k < 0.90:
-            return RIntRes(rng.choice(["u64", "u8", "Pod1", "()", "()", "()"]), rng.choice(["io", "unit", "UErr"]))
+            return RIntRes(rng.choice(["u64", "u8", "Pod1", "()", "()", "()"]), rng.choice(["io", "unit", "UErr"]), rng.random() < 0.3)
         return RChild("owned", rng.random() < 0.4) if allow_child else RVal("u64")
     if k < 0.10:
         return RUnit()
@@ -819,14 +824,14 @@ def gen_ret(rng, recv_mut, consuming, allow_child=True):
     if k < 0.74:
         return RRes(rng.choice(["u8", "u64", "Pod1", "i32"]), rng.choice(["u8", "i32", "u64", "bool"]))
     if k < 0.84:
-        return RIntRes(rng.choice(["u64", "u8", "Pod1", "()", "()", "()", "i16"]), rng.choice(["io", "unit", "UErr"]))
+        return RIntRes(rng.choice(["u64", "u8", "Pod1", "()", "()", "()", "i16"]), rng.choice(["io", "unit", "UErr"]), rng.random() < 0.3)
     if not allow_child:
         return RVal(rng.choice(_vals()))
-    if k < 0.90:
+    if k < 0.89:
         return RChild("owned", rng.random() < 0.4)
-    if k < 0.94:
+    if k < 0.945:
         return RChild("ref", rng.random() < 0.4)
-    if k < 0.98 and recv_mut:
+    if k < 0.99 and recv_mut:
         return RChild("mut", rng.random() < 0.4)
     return RResChild()
 
@@ -1027,7 +1032,10 @@ def gen_trait(rng, name, prefix, max_methods=5, allow_child=True, tindex=0):
                     m.vtbl_only = True
                     m.attrs.append("#[vtbl_only]")
         # int_result attribute logic
-        if ret.int_result is True and not int_result:
+        if getattr(ret, "alias", None):
+            # the method-level alias takes precedence over whatever the trait says
+            m.attrs.append(f"#[int_result({ret.alias})]")
+        elif ret.int_result is True and not int_result:
             m.attrs.append("#[int_result]")
         if ret.int_result is False and int_result:
             m.attrs.append("#[no_int_result]")
